@@ -337,6 +337,21 @@ func c02main(c *Ctx) {
 				decoy = mon.New(log, "DECOY", mon.ShapePlain)
 				c.R.Add("calls_after_a_decoy_in_front_of_each_class_was_removed", 1)
 			}
+			errorsFirst := decoy == nil && idx%3 == 1
+			if errorsFirst {
+				// the error destinations (and a per-level one) are configured BEFORE the normal one: the order of the calls is
+				// no input of what each of them configures
+				lg.SetErrorWriter(dst(d.errs[0]))
+				for _, w := range d.errs[1:] {
+					lg.AddErrorWriter(dst(w))
+				}
+				if r.P(40) {
+					l := gen.Pick(r, []slog.Level{slog.InfoLevel, slog.ErrorLevel, slog.AlwaysLevel, slog.DebugLevel})
+					d.perLevel[l] = []int{perm[3]}
+					lg.AddLevelWriter(l, pool[perm[3]])
+				}
+				c.R.Add("loggers_whose_error_destinations_were_configured_before_the_normal_one", 1)
+			}
 			if decoy != nil {
 				lg.SetWriter(decoy)
 				lg.AddWriter(dst(d.normal[0]))
@@ -346,21 +361,25 @@ func c02main(c *Ctx) {
 			for _, w := range d.normal[1:] {
 				lg.AddWriter(dst(w))
 			}
-			if decoy != nil {
+			if errorsFirst {
+				// (done above)
+			} else if decoy != nil {
 				lg.SetErrorWriter(decoy)
 				lg.AddErrorWriter(dst(d.errs[0]))
 			} else {
 				lg.SetErrorWriter(dst(d.errs[0]))
 			}
 			for _, w := range d.errs[1:] {
-				lg.AddErrorWriter(dst(w))
+				if !errorsFirst {
+					lg.AddErrorWriter(dst(w))
+				}
 			}
 			if decoy != nil {
 				lg.RemoveWriter(decoy)
 				lg.RemoveErrorWriter(decoy)
 			}
 		}
-		if r.P(25) || (defaultDev && r.P(50)) {
+		if len(d.perLevel) == 0 && (r.P(25) || (defaultDev && r.P(50))) {
 			l := gen.Pick(r, []slog.Level{slog.InfoLevel, slog.ErrorLevel, slog.AlwaysLevel, slog.DebugLevel})
 			d.perLevel[l] = []int{perm[3]}
 			lg.AddLevelWriter(l, pool[perm[3]])
@@ -445,6 +464,17 @@ func c02main(c *Ctx) {
 				lg.AddLevelWriter(l, pool[ws[0]])
 			}
 			name = "kid"
+			if par := lg.Parent(); par != nil && r.Bool() {
+				// the application asks for the child by its name again - the way it did when it made it, additive writer options
+				// included: the child exists and is handed out as it is
+				for i := 0; i < 2; i++ {
+					if again := par.New("kid", slog.AddWriter(pool[d.normal[0]]), slog.AddErrorWriter(pool[d.errs[0]])); again != lg {
+						c.R.Violation(idx, "delivery", "C02/delivery/child-fetched-again", "New(\"kid\", options...) on the parent of an existing child made another logger", nil)
+						return
+					}
+				}
+				c.R.Add("children_fetched_again_by_name_with_additive_writer_options", 1)
+			}
 		}
 		// registered context keys (with a context that carries one of them, none of them, or is nil)
 		ctxKeys := r.P(25)
